@@ -163,14 +163,20 @@ impl Decoder {
             return Ok((flags, value));
         }
 
-        let mut power = 0;
+        let mut power = 0u32;
         loop {
             let byte = bytes_reader
                 .get_bytes(1)
                 .ok_or(DecodingError::UnexpectedFin)?[0] as usize;
 
+            let chunk = byte & 0x7F;
+            let shifted = chunk
+                .checked_shl(power)
+                .filter(|shifted| shifted >> power == chunk)
+                .ok_or(DecodingError::IntegerOverflow)?;
+
             value = value
-                .checked_add((byte & 0x7F) << power)
+                .checked_add(shifted)
                 .ok_or(DecodingError::IntegerOverflow)?;
 
             power += 7;
